@@ -23,13 +23,11 @@
       `all_pairs[key]` (hash dependent) is a parameter `iter` of `mkIndex`;
     * a tensor is a `List α`; the exceptions `KeyError` / `IndexError` are `none`.
 
-  The code modelled is the code AFTER the proposed fix C19-F1 (`log_probability` of the
-  U-layer adds the tag of the start symbol the derivation begins with, like the repaired
-  `ProbUGrammar.probability`; the transcription of the code before the fix is kept as
-  `logProbabilityUOld`, used by `finding_C19_F1` and by the driver to recognise it) and C19-F2
-  (U-layer: the variable/constant mass is divided by the number of tagged *alternatives*, not
-  by the number of variables and constants; `tagNTUOld` is the code before the fix, used by
-  `finding_C19_F2`).
+  The code modelled is /repo as it is: `log_probability` and `ProbUGrammar.probability` of
+  unambiguous grammars both omit the weight of the start symbol (open known finding C04-F1,
+  listed for this property as C19-F1); the U-layer divides the variable/constant mass by the
+  number of tagged *alternatives* (fix C19-F2, commit 97880ac; `tagNTUOld` is the code before
+  that fix, used by `finding_C19_F2`).
 -/
 import PS.Basic
 import PS.Model.Tree
@@ -539,21 +537,11 @@ def addTagU (tags : AList NT (AList DP (AList Alt α))) (cur : α) (st : StepU) 
   | none => none
   | some w => some (cur + w)
 
-/-- `TensorLogProbUGrammar.log_probability(program)` AFTER fix C19-F1: the derivation may
-    begin at any start symbol, whose tag is part of the log-probability:
-      `for S0 in self.starts: results += reduce_derivations(…, zeros + start_tags[S0], program, S0)`
-      `return results[0]` -/
+/-- `TensorLogProbUGrammar.log_probability(program)` (u 51-62):
+    `reduce_derivations(lambda …: current + tags[S][P][V], zeros, program, None)[0]` — the
+    derivations from every start symbol, every fold must succeed (KeyError), first result
+    (IndexError when there is none).  The start tags are not used. -/
 def logProbabilityU (rules : AList NT (AList DP (List Alt))) (starts : List NT)
-    (tags : AList NT (AList DP (AList Alt α))) (startTags : AList NT α) (t : Prog) : Option α :=
-  match allSomeL (fun S0 =>
-      match startTags.lookup S0 with
-      | none => none
-      | some s => reduceU rules (addTagU tags) (ofNat 0 + s) t S0) starts with
-  | none => none
-  | some rs => rs.flatten.head?
-
-/-- the code BEFORE the fix (u 51-62): `reduce_derivations(…, zeros, program, None)[0]` -/
-def logProbabilityUOld (rules : AList NT (AList DP (List Alt))) (starts : List NT)
     (tags : AList NT (AList DP (AList Alt α))) (t : Prog) : Option α :=
   match allSomeL (fun S0 => reduceU rules (addTagU tags) (ofNat 0) t S0) starts with
   | none => none
@@ -563,6 +551,15 @@ def mulTagU (w : AList NT (AList DP (AList Alt α))) (cur : α) (st : StepU) : O
   match tagU w st with
   | none => none
   | some p => some (cur * p)
+
+/-- `ProbUGrammar.probability(program)` as implemented (tagged_u_grammar.py): product of the
+    RULE weights along the first derivation, `0` when there is no derivation or on KeyError;
+    the start weights are not used (C04-F1). -/
+def probabilityU (rules : AList NT (AList DP (List Alt))) (starts : List NT)
+    (w : AList NT (AList DP (AList Alt α))) (t : Prog) : α :=
+  match allSomeL (fun S0 => reduceU rules (mulTagU w) (ofNat 1) t S0) starts with
+  | none => ofNat 0
+  | some rs => rs.flatten.head?.getD (ofNat 0)
 
 /-- Specification: probability that the converted grammar gives to the derivation `d` that
     begins at start symbol `S0`: start probability times the rule probabilities. -/
